@@ -150,7 +150,8 @@ ADDENDA = {
            'C07_root_spans_exact (one span per item for bracket-balanced items without a top-level comma; (rootSpans s).isOk = Balanced s), C07_span_kinds (aN, a[N], a.name, bare identifiers, star markers, a[literal], `expr AS name` for EVERY expr), '
            'C07_span_info_sound (inversion: a non-null info correctly names its column - the guarantee stated in the source comment), C07_unquote_escaped_full (unquote_string undoes js_string_escape_column_name for EVERY name, after the repair D20), '
            'C07_text_to_header_width / C07_text_header_matches_records: the hypothesis `aligned items infos` of C07_header_matches_records is DISCHARGED from the item texts for the JS port. Defects D19 (tuple item, Python) and D20 (control-character escapes, JS) found by these proofs/ties and fixed. ',
-    'C09': 'VARIABLE BINDING on the real algorithms (Model/Variables.lean: parse_dictionary_variables, parse_attribute_variables, map_variables_directly, ensure_no_ambiguous_variables, generate_init_statements; tied to both ports): '
+    'C09': 'ADAPTERS: get_variables_map of the REAL pandas, CSV (py and js) and sqlite iterators tied to Model/Variables.lean iteratorVariablesMap (which passes run, in which order, under which condition). NAMED variables of both tables in the header-flag x WITH-modifier matrix. '
+           'VARIABLE BINDING on the real algorithms (Model/Variables.lean: parse_dictionary_variables, parse_attribute_variables, map_variables_directly, ensure_no_ambiguous_variables, generate_init_statements; tied to both ports): '
            'C09_dict_no_false_negative (the "probably has" heuristic never misses a referenced column: every name segment survives the escaping), C09_dict_variable_binds_position, C09_attribute_variable_binds_position, C09_attribute_unknown_column_fails, '
            'C09_attr_duplicate_names_diverge (Python last / rbql.js first column of a duplicated name), C09_init_assignments_cover, C09_direct_variable_bound, C09_ambiguous_detected. VARIABLE DISCOVERY: C09_basic_vars_iff: n is reported by parse_basic_variables (model) IFF `a<n>` occurs delimited by non-word characters (sound AND complete); C09_array_vars_sound / _complete (with the counterexample `a[1]a[2]`); C09_var_not_inside_identifier. Tied to both ports. ',
     'C03': 'NUMERIC STRINGS ARE MODELLED (Model/Number.lean: Python int() then float() grammar as NumHandler.parse applies them, JavaScript Number() as rbql.js parse_number does) and tied string by string '
@@ -169,7 +170,7 @@ ADDENDA = {
     'C16': 'SHARED STATE made explicit: machines over module-level state g (steps may READ it); C16_frame_implies_independence: if no step writes g (the frame condition the regenerated footprint supports) every schedule gives the solo results; '
            'C16_shared_write_counterexample / _history_counterexample: a step that records a decision in shared state (the shape of the seeded shared NumHandler) makes results depend on schedule and on history. '
            'FOOTPRINT: the scanner follows aliases, elements of shallow copies, parameters and return values (taint), memoising decorators and function attributes, and also covers the front-end modules '
-           '(C16_frontends_no_shared_writes: rbql_csv / rbql_pandas / rbql_sqlite / rbql_main); histories include FROM queries (input from the registry) and all sequences of <= 3 (4) query_csv calls in which one relative join-table name denotes different files; SHARED OBJECTS: all sequences of <= 2 (3) queries over the same table objects and one registry object. ',
+           '(C16_frontends_no_shared_writes: rbql_csv / rbql_pandas / rbql_sqlite / rbql_main); histories include FROM queries (input from the registry) and all sequences of <= 3 (4) query_csv calls in which one relative join-table name denotes different files; SHARED OBJECTS: all sequences of <= 2 (3) queries over the same table objects and one registry object; all sequences of <= 3 (4) queries over ONE sqlite connection; the adapter modules store to no attribute of an object the caller handed over (generated). ',
     'C20': 'CONSUMER INDEPENDENCE: every multi-chunk stream is read twice by the real rbql-js reader — get_all_records from a synchronous source, and a consumer that yields to the event loop from an asynchronous source — both must equal the model. ',
     'C02': 'CSV SINK: DISTINCT / ORDER BY / TOP queries with number, None and quote-needing cells through query_csv against query_table (the CSV writer renders the record it is handed; that must not leak into what the stages remember). ',
     'C15': 'STDOUT AS A REAL PIPE: query_csv writing to a pipe whose reader is gone (results of 0 / 1 / 20 / 30000 records, so the break happens at the final flush or inside the loop) must return and leave no descriptor it opened behind (/proc/self/fd). ',
